@@ -1,5 +1,6 @@
 """C13 A table's reported format string reproduces the table."""
 import collections
+import re
 import types
 import vf
 vf.use_repo()
@@ -97,6 +98,17 @@ def gen_case(rng):
     remove = rng.sample(T.FIELDS, rng.randint(0, 2))
     d_alias = rng.choice([None, None, None, "max(d)", "d(x)"])
     b_alias = rng.choice([None, None, None, None, "A", "A", ""])      # ('': a caption row with a blank cell)
+    if rng.random() < 0.08:
+        # a range written the other way round ("name:12-6"): the parser takes it, the table has SOME width for it,
+        # and whatever is reported must give that table again
+        cols_part, sep, rest = fmt.partition(";")
+        cols_l = cols_part.split(",")
+        for k, col in enumerate(cols_l):
+            m = re.search(r":(\d+)-(\d+)$", col)
+            if m and int(m.group(1)) < int(m.group(2)):
+                cols_l[k] = col[:m.start()] + ":%s-%s" % (m.group(2), m.group(1))
+                break
+        fmt = ",".join(cols_l) + sep + rest
     c0 = {'d_alias': d_alias, 'b_alias': b_alias}
     fmt, fmt2 = alias_fmt(c0, fmt), alias_fmt(c0, fmt2)
     remove = [d_alias if (f == 'd' and d_alias) else b_alias if (f == 'b' and b_alias is not None) else f
@@ -263,8 +275,43 @@ def judge(ctx, c, case):
             ctx.nontrivial(sig_of([c['recs'], c['fmt'], c['lim_arg'], stage]))
 
 
+ODD_NAMES = ["Surname, Name", "x:y", "q;r", " padded ", "bang!", "path/to", "a<-b", "w(3)", "5", "*"]
+
+
+def odd_names_case(ctx, rng):
+    """captions a format string cannot spell (a comma, a colon, ...): such a table is made without a format and its
+    reported format is of no use - but the empty formats still have to leave it alone"""
+    ctx.evaluated()
+    names = rng.sample(ODD_NAMES, rng.randint(1, 3)) + ["plain"]
+    rng.shuffle(names)
+    recs = [tuple(rng.choice(["v", "ww", 7, None, "long value"]) for _ in names) for _ in range(rng.randint(0, 6))]
+    limits = rng.choice([None, (1, 1), (2, 0)])
+    case = {"odd_names": names, "recs": recs, "limits": limits}
+    try:
+        t = PPTable(recs, fields=names, limits=limits)
+        base = T.render(t)
+    except Exception as err:
+        ctx.violation("table-raises", {"type": type(err).__name__, "msg": str(err)[:200]}, case)
+        return
+    ctx.count("tables_with_unspellable_field_names")
+    for noop in ("", ";", ";;", "", ";"):
+        try:
+            t.fmt = noop
+            again = T.render(t)
+        except Exception as err:
+            ctx.violation("empty-format-rejected", {"fmt": noop, "type": type(err).__name__, "msg": str(err)[:150]}, case)
+            return
+        ctx.count("noop_formats_checked")
+        if again != base:
+            ctx.violation("empty-format-changes-rendering", {"fmt": noop, "before": base[:200], "after": again[:200]}, case)
+            return
+
+
 def run_shard(ctx):
     for i in range(ctx.cases):
+        if i % 5 == 4:
+            for k in range(4):
+                odd_names_case(ctx, ctx.rng(i, "odd%d" % k))
         c = gen_case(ctx.rng(i))
         judge(ctx, c, c)
         if i < 2:
@@ -273,6 +320,11 @@ def run_shard(ctx):
 
 
 def replay(ctx, case):
+    if "odd_names" in case:
+        import random
+        for k in range(200):
+            odd_names_case(ctx, random.Random(k))
+        return
     case = dict(case)
     case['recs'] = [tuple(r) for r in case['recs']]
     if case.get('sibling'):
